@@ -142,3 +142,43 @@ func HarnessC14Sequences() {
 func HarnessC14Interleavings() {
 	c14Run(nondetChoice("proto", 3), true)
 }
+
+// HarnessC14CancelledCall: a client that finishes by cancelling: the context
+// is done from a symbolic (early) poll on; Send, Receive, CloseRequest and
+// CloseResponse must all return, and no library goroutine may remain.
+//
+//verif:harness property=C14 stubs=json,wire shard=proto:3
+func HarnessC14CancelledCall() {
+	proto := nondetChoice("proto", 3)
+	ctx := &pollCtx{kind: nondetChoice("kind", 2)}
+	ctx.at = nondetInt("at")
+	assume(ctx.at >= 0 && ctx.at <= 2)
+	h := &c14Handler{recv: 3, send: 1}
+	handler := NewBidiStreamHandler("/pkg.Svc/Method", h.run, stackHandlerOptions()...)
+	closes := 0
+	tr := &c15Transport{inner: &stackTransport{handler: handler, bodyCloses: &closes}, ctx: ctx}
+	client := NewClient[[]byte, []byte](tr, stackURL, stackClientOptions(proto)...)
+	stream := client.CallBidiStream(ctx)
+	m := []byte{1}
+	serr := stream.Send(&m)
+	if serr == nil {
+		// (half-duplex transport model: see HarnessC15Client)
+		_ = stream.CloseRequest()
+	}
+	n := 0
+	for {
+		_, err := stream.Receive()
+		if err != nil {
+			break
+		}
+		n++
+		if n > 2 {
+			check(false, "the receive loop terminates")
+			return
+		}
+	}
+	_ = stream.CloseRequest()
+	_ = stream.CloseResponse()
+	reach("all operations of a cancelled call returned")
+	check(verifQuiesce() == 0, "no goroutine started by the library remains after a cancelled call")
+}
